@@ -41,6 +41,41 @@ def bignumModel (op : String) (a : List String) : String :=
   | "consts" => s!"ok {E} 0 {Limbs.decimalFractional.value} 1 0"
   | _ => "unknown-op"
 
+/-- C08 oracle, independent of the model's `Except` functions: the exact mathematical result of an
+operation (rounded toward zero where the result type requires) and the only conditions under which it may
+abort: an operand product / sum / the result ≥ 2^256, a zero divisor, a negative difference -/
+def bignumExact (op : String) (x y z : Nat) : Option (Nat × Bool) :=
+  -- (exact value, abort permitted)
+  match op with
+  | "dec_add" | "dec_add_assign" | "uint_add" | "uint_add_assign" => some (x + y, decide (U ≤ x + y))
+  | "dec_sub" | "uint_sub" => some (x - y, decide (x < y))
+  | "dec_mul" => some (x * y / E, decide (U ≤ x * y))
+  | "dec_div" => some (if y = 0 then 0 else x * E / y, decide (y = 0) || decide (U ≤ x * E))
+  | "dec_from_ratio" => some (if y = 0 then 0 else x * E / y, decide (y = 0) || decide (U ≤ x * E))
+  | "dec_from_uint" => some (x * E, decide (U ≤ x * E))
+  | "uint_mul" => some (x * y, decide (U ≤ x * y))
+  | "uint_mul_dec" | "dec_mul_uint" => some (x * y / E, decide (U ≤ x * y))
+  | "uint_div_dec" => some (if y = 0 then 0 else x * E / y, decide (y = 0) || decide (U ≤ x * E))
+  | "uint_mul_ratio" => some (if z = 0 then 0 else x * y / z, decide (z = 0) || decide (U ≤ x * y))
+  | "uint_cmp" | "dec_cmp" => some (cmpCode x y, false)
+  | "uint_to_u128" | "uint_to_uint128" | "dec_to_std" => some (x, decide (W ≤ x))
+  | "uint_from_uint128" | "uint_from_u64" | "dec_from_std" => some (x, false)
+  | _ => none
+
+def bignumOracle (op : String) (a : List String) (impl : String) : List (String × String) :=
+  let x := nat! (a.getD 0 "0")
+  let y := nat! (a.getD 1 "0")
+  let z := nat! (a.getD 2 "0")
+  match bignumExact op x y z with
+  | none => []
+  | some (exact, mayAbort) =>
+    match okVals impl with
+    | some (r :: _) =>
+      if mayAbort then
+        [("C08", "returned a value where it had to abort: the exact result does not exist or an operand product / the result exceeds 256 bits")]
+      else if r != exact then [("C08", s!"returned {r}, exact result is {exact}")] else []
+    | _ => if mayAbort then [] else [("C08", "aborted although the exact result exists and fits")]
+
 def fnLine (family : String) (a : List String) (impl : String) : Verdict :=
   let g (i : Nat) : Nat := nat! (a.getD i "0")
   match family with
@@ -135,7 +170,7 @@ def fnLine (family : String) (a : List String) (impl : String) : Verdict :=
     mk false model impl oracle
   | "bignum" =>
     let op := a.getD 0 ""
-    mk false (bignumModel op (a.drop 1)) impl []
+    mk false (bignumModel op (a.drop 1)) impl (bignumOracle op (a.drop 1) impl)
   | "text" => Halo.Driver.textLine a impl
   | "pair_key" | "read_pairs" | "assert_operations" => Halo.Driver.registryLine family a impl
   | _ => { diverge := some s!"unknown-family {family}" }
